@@ -193,6 +193,24 @@ def run_case(rng, acc):
         cands += ['extra_unset']
       if cands:
         n.tags.setdefault(rng.choice(cands), set()).add(rng.choice(vtags.ALL))
+  if rng.random() < 0.4 and gen.to_special_btypes(root, rng, 0.4, pinned=True):
+    acc.obs('cases_with_dictconfig_namespaceconfig_or_pinned_subclass')
+  # leaves that copy.deepcopy / pickle cannot handle (module, lock, generator) next to Buildables:
+  # a deep copy either refuses (raises) or is faithful and independent - never a half copy
+  uncopyable = rng.random() < 0.15
+  if uncopyable:
+    import math, threading
+    bad = rng.choice([math, threading.Lock(), (i for i in range(3))])
+    hosts = [n for n in gen.walk(root) if isinstance(n, gen.B) and n.btype != 'TaggedValue'
+             and any(not isinstance(c, gen.Leaf) and k != 'uid' for k, c in n.kw.items())]
+    if hosts:
+      h = rng.choice(hosts)
+      k = rng.choice([k for k, c in h.kw.items() if not isinstance(c, gen.Leaf) and k != 'uid'])
+      h.kw[k] = gen.Seq('list', [h.kw[k], gen.Leaf(bad)] if rng.random() < 0.7
+                        else [gen.Leaf(bad), h.kw[k]])
+      acc.obs('uncopyable_leaf_cases')
+    else:
+      uncopyable = False
   sketch = gen.sketch(root)
   a = gen.to_fiddle(root)
   nb = sum(isinstance(n, gen.B) for n in gen.walk(root))
@@ -216,6 +234,12 @@ def run_case(rng, acc):
     try:
       b, cast_type = make_copy(kind, a, rng)
     except Exception as e:  # pylint: disable=broad-except
+      if uncopyable and kind in ('deepcopy', 'pickle', 'deepcopy_with'):
+        acc.obs('refused:uncopyable-leaf')       # loud refusal: no copy exists
+        if C.canon(a, 'frame') != frame_a:
+          acc.violation(f'{kind}:original-modified-by-copying', 'frame canon of the original '
+                        'changed by a refused copy', witness())
+        continue
       acc.violation(f'{kind}:raises:{type(e).__name__}', f'{kind} raised {e!r}'[:300], witness())
       continue
     if C.canon(a, 'frame') != frame_a:
